@@ -107,6 +107,8 @@ def main():
         d = d.rstrip("/")
         prop, meta, res, ran = evaluate(d)
         n = os.path.basename(d)
+        if n.isdigit() and os.environ.get("SEED_OFFSET"):  # later seeding rounds: /k -> Cxx-(k+offset)
+            n = str(int(n) + int(os.environ["SEED_OFFSET"]))
         out = os.path.join(VERIF, "seeded", f"{prop}-{n}")
         print(f"== {d}: confirmed={res['confirmed']} {res.get('note','')}")
         if not res["confirmed"]:
